@@ -1,7 +1,7 @@
 from ..framework import Spec
 from ..ties_config import validate_tie, gate_tie, require_tie
 
-SPEC = Spec(pid='C19', coq_needs=['Base', 'Layout', 'Config', 'ConfigProofs', 'ConfigTree', 'Properties/C19'],
+SPEC = Spec(pid='C19', coq_needs=['Base', 'Layout', 'LayoutProofs', 'Config', 'ConfigProofs', 'ConfigTree', 'Properties/C19'],
             ties=[validate_tie(), gate_tie(), require_tie()],
             trusted_extra=['harness/ties_config.py tree_term(): the YAML document as loaded, rendered as a Coq tree (ConfigTree.yv); which '
                            'keys exist, which variants and operand configurations are built and what they refer to is decided by the model '
